@@ -233,6 +233,19 @@ def run_impl(ctx, impl, cases, timeout=900):
 
 
 def run(ctx):
+    # a run on a scratch copy (PV_REPO) regenerates the shared coq/Gen/CApiTable.v from that copy:
+    # put the /repo version back afterwards
+    tv = os.path.join(pv.COQ, "Gen", "CApiTable.v")
+    keep = open(tv).read() if (pv.REPO != "/repo" and os.path.exists(tv)) else None
+    try:
+        run_(ctx)
+    finally:
+        if keep is not None and open(tv).read() != keep:
+            with open(tv, "w") as f:
+                f.write(keep)
+
+
+def run_(ctx):
     ctx.level = "proof"
     quick = ctx.quick()
     # ---- (T) regenerate the table from the current tree
@@ -338,8 +351,27 @@ def run(ctx):
                               "%s: C API and C++ API differ: %s" % (c, out[:400]))
     ctx.cov["twin_results"] = {"same_ok": sum(1 for o in bo if o.startswith("same ok")), "same_err": sum(1 for o in bo if o.startswith("same err")),
                                "different": ndiff}
+    seen = ctx.__dict__.setdefault("_distinct", set())
+    for c, o in list(zip([c for (c, _, _) in zc], zo)) + list(zip(bc, bo)):
+        if not BAD.match(o) and not o.startswith("DIFF"):
+            seen.add(c)
+    ctx.cov["distinct_nontrivial"] = len(seen)
     ctx.cov["evaluations"] = ctx.cov.get("evaluations", 0) + len(zc) + len(bc) + len(sqf)
     ctx.cov["traces_validated_against_impl"] = ctx.cov.get("traces_validated_against_impl", 0) + len(zo) + len(bo)
+    if not quick:
+        # the same NULL / size-query / trace cases on the unsanitized build (what users link against)
+        plain = pv.build_harness("plain", "capi_drv", extra="-lprimitiv_c -I" + gen_dir())
+        pv.correspondence(ctx, "capi-null-plain", cases, plain, model, nontrivial=nontriv, functional=True)
+        pv.correspondence(ctx, "capi-sizequery-plain", sq_cases, plain, model, nontrivial=nontriv, functional=True)
+        pv.correspondence(ctx, "capi-trace-plain", traces[:1000], plain, model, nontrivial=nontriv, functional=True)
+        if res["ok"]:
+            rc, out = pv.sh("timeout 1200 coqchk -silent -o -Q . PV PV.Props.Properties_C20", cwd=pv.COQ, timeout=1300)
+            okchk = rc == 0 and "Axioms: <none>" in out
+            ctx.cov["coqchk"] = {"cmd": "coqchk -silent -o -Q . PV PV.Props.Properties_C20", "rc": rc,
+                                 "axioms": "none" if okchk else out[-600:]}
+            if not okchk:
+                ctx.violation("coqchk", {"kind": "proof-obligation", "no_longer_checks": ["coqchk PV.Props.Properties_C20"],
+                                         "build_log_tail": out[-3000:]}, False, "coqchk rejects Properties_C20.vo or reports axioms")
     # ---- a broken obligation: build the concrete failing call from the offending rows
     if not res["ok"]:
         found = search_failing_call(ctx, table, impl, model)
@@ -354,7 +386,8 @@ def run(ctx):
     ctx.cov["input_distribution"] = dist
     ctx.cov["variant"] = "asan (AddressSanitizer + UBSan, -fno-sanitize-recover=all); every probe in a forked child"
     ctx.add_samples([cases[1], cases[2]] + sq_cases[:2] + traces[:1] + [zc[0][0]] + bc[:2])
-    ctx.cov["exhaustive"] = "NULL / NULL-element / scalar probes are exhaustive over the parameters of all %d wrappers" % len(fns)
+    ctx.cov["exhaustive"] = False
+    ctx.cov["exhaustive_over"] = "the NULL / NULL-element / scalar probes enumerate every parameter of all %d wrappers; argument VALUES are sampled (the theorems quantify over them)" % len(fns)
     ctx.assumptions += [
         "the C++ API behind a wrapper is an oracle that returns or throws an exception derived from std::exception; exceptions of other types cannot be exhibited by the model",
         "translate/gen_capi.py (clang 14 JSON AST) reads the wrappers correctly; mitigated by probing every table fact on the built library",
